@@ -94,6 +94,15 @@ func runC02(c *core.Ctx, crashes bool) {
 	nChains := ch.Range(2, 3)
 	w, e := buildTraffic(c, nChains, world.DefaultClientParams())
 	uni := scen.DefaultUniverse()
+	uni.UnknownDestPct = 5
+	for _, n := range w.Nodes { // some relay chains refuse some or all traffic
+		switch ch.Int(5) {
+		case 0:
+			c.Check(w.SetRules(n, []string{"*,*,NFT"}))
+		case 1:
+			c.Check(w.SetRules(n, []string{}))
+		}
+	}
 	e.SeedTokens(uni, 3)
 	replays, replaysAfterClean := 0, 0
 	e.OnRelayTx = func(s *scen.Sent, n *world.Node, r *world.TxResult, before map[string]string) {
